@@ -23,8 +23,8 @@ run)
     id="${2:?id}"; nwork="${3:-4}"; nseeds="${4:-16}"
     case "$id" in
         C19) scenarios="aco" ;;
-        C05|C06) scenarios="ga" ;;
-        C08|C16) scenarios="ga exp" ;;
+        C05|C06) scenarios="ga eval" ;;
+        C08|C16) scenarios="ga eval exp" ;;
         C15) scenarios="exp" ;;
         *) exit 0 ;;
     esac
@@ -34,12 +34,17 @@ run)
     total=0; okc=0; summary=""
     for scenario in $scenarios; do
         flags="$BASEFLAGS"; w=$nwork; k=$nseeds
+        if [ "$scenario" = eval ]; then
+            # many evaluation calls per execution: half the workloads (threads 3 and 4)
+            w=$(( (nwork + 1) / 2 ))
+        fi
         if [ "$scenario" = exp ]; then
             # file I/O needs the real file system; an execution costs ~30 s of interpretation
             flags="$BASEFLAGS -Zmiri-disable-isolation"; w=$(( (nwork + 1) / 2 )); k=$(( (nseeds + 1) / 2 ))
         fi
         for i in $(seq 0 $((w-1))); do
             wseed=$((seed*1000+i)); threads=$((2 + i % 3))
+            [ "$scenario" = eval ] && threads=$((4 - i % 2))
             out=$(run_one "$scenario" "$wseed" "$threads" "$flags -Zmiri-many-seeds=0..$k")
             n_ok=$(echo "$out" | grep -c 'THREAD-WORLD ok')
             total=$((total+k)); okc=$((okc+n_ok))
